@@ -177,8 +177,20 @@ def correspond(ctx, model):
             bad += 1
             if bad >= 8:
                 break
+    # parts of the calculus without a Lean model: implementation-only oracle
+    import opalg_stacks as S
+
+    for name, key, fail in S.cases(env, ctx.rng, ctx.thorough):
+        ctx.case({"name": name}, ("oracle",) + tuple(map(str, key)))
+        ctx.count("oracle-only:" + name.split(" ")[0].split("{")[0].split("(")[0].split("[")[0])
+        if fail:
+            ctx.disagree("opalg.oracle:" + str(fail.get("what")), {"name": name, "key": [str(k) for k in key]}, _js(fail), "same construction on the operands' matrices",
+                         oracle=lambda c, fail=fail: _js(fail))
+            bad += 1
+            if bad >= 8:
+                break
     # random trees
-    n = ctx.n(250, 3000)
+    n = ctx.n(200, 3000)
     dmax = ctx.n(4, 7)
     for i in range(n):
         dt_of = T.dtype_regime(ctx.rng)
